@@ -78,6 +78,16 @@ CLAIMS: dict[str, dict[str, str]] = {
         "note": NOTE + " rustc --emit=mir is trusted to reflect the compiled parser.",
         "technique": "cumulative-table search rule, AST/MIR symbolic normal forms, sibling agreement, recon fidelity",
     },
+    "C08": {
+        "text": "Static table agreement: token language of _TOKENS (regex AST, 74 tokens) vs the 46 documented "
+                "tokens vs handlers (if/elif ladders evaluated per token) vs regex/parse tables vs the parsed[] slots "
+                "written, initialised and read; per-token render rule (value expression, pad width), parse scale "
+                "10^(6-n), strict regex widths, 12-hour and meridiem rules, Z/ZZ render and parse, named-format "
+                "tables/constants/methods, from_format forwarding. A wrong table entry is visible without choosing "
+                "a value; equality with strftime for all values is not claimed.",
+        "note": NOTE + " The per-token meaning table in pvs/props/C08.py transcribes docs/docs/string_formatting.md.",
+        "technique": "reader/writer table agreement over regex-AST token language, per-token width/scale rules",
+    },
 }
 
 NOT_APPLICABLE: dict[str, str] = {}
